@@ -15,4 +15,4 @@ Extraction "model.ml"
   Search.all_orders Search.generate_all Search.all_combinations Search.sequence_generator
   Format.format_solution
   Units.g_new_solution Units.g_exec_move Units.g_exec_checked Units.g_move_executable Units.g_unplan_unit
-  Units.g_unplan_group Units.g_exec_units Units.g_unplan_vehicle Units.members_of Units.member_group Units.top_planned Units.is_group_id.
+  Units.g_unplan_group Units.g_exec_units Units.g_unplan_vehicle Units.members_of Units.member_group Units.top_planned Units.is_group_id Units.g_format_solution.
